@@ -85,6 +85,17 @@ extern "C" void h_self() {               /* aliasing: a += a is the zero vector,
   __CPROVER_assert(a.size() == 0, "K2.pluseq.self: a += a is the zero vector");
   __CPROVER_assert(0, "VP_REACH end of harness");
 }
+extern "C" void h_append() {             /* K1: add(pos) appends a coordinate beyond the last one */
+  unsigned long n = nondet_len(); __CPROVER_assume(n <= NA);
+  V a; mk(a, n); capA(a);
+  V a0(a);
+  U pos = nondet_U(), k = nondet_U();
+  __CPROVER_assume(n == 0 || pos > a.ones.data_[n - 1]);      /* precondition of add(): beyond the last coordinate */
+  a.add(pos);
+  __CPROVER_assert(canon(a), "K1.add.canon: still strictly increasing");
+  __CPROVER_assert(a.size() == n + 1 && member(a, k) == (member(a0, k) || k == pos), "K1.add.view: the old coordinates and pos");
+  __CPROVER_assert(0, "VP_REACH end of harness");
+}
 extern "C" void h_unary() {              /* K1: constructors, assignment, clear; symbolic length <= NA */
   unsigned long n = nondet_len(); __CPROVER_assume(n <= NA);
   V a; mk(a, n);
@@ -151,7 +162,7 @@ def _unit(entry, na, nb, tag, fn_status, timeout):
                 dropped=["nothing of the header; serialize() and operator<< are templates that are never instantiated"],
                 functions=fn_status, replay=_replay,
                 assumptions=["stubs/cxx <vector>,<set> are the assumed contract of the standard containers (fixed capacity = bound)",
-                             "SpVecGF2::add() is excluded: unreachable from every entry point and its own assert dereferences end()"],
+                             "SpVecGF2::add() is not called by the library; it is a public member and has its own unit (h_append) since the repair of its assertion"],
                 trusted=["cbmc 6.11 C++ front end + SAT back end"])
 
 
@@ -170,6 +181,7 @@ def units(tier):
     for na in range(N + 2):
         out.append(G("K1-3_spvecgf2_self_%d" % na, _unit, "h_self", na, 0, "%d" % na,
                      {"SpVecGF2 aliasing (a+=a, a=a, a*a)": "bounded(len<=%d)" % (N + 1)}, 600))
+    out.append(G("K1-3_spvecgf2_append", _unit, "h_append", N, 1, "upto%d" % N, {"SpVecGF2::add": "bounded(len<=%d)" % N}, 600))
     out.append(G("K1-3_spvecgf2_unary", _unit, "h_unary", N + 1, 0, "upto%d" % (N + 1),
                  {"SpVecGF2 ctors/assign/move/clear/begin/end": "bounded(len<=%d)" % (N + 1)}, 900))
     return out
